@@ -968,6 +968,11 @@ def rule_const(ctx):
 
 
 def run(ctx):
+    from ..report import SubCtx
+    from . import c02
+    sub_c02 = SubCtx(ctx, 'C01.topo', 'every unit of the graph reaches the emitted definition once: the topological sort and the ordering bookkeeping, as decided for C02')
+    c02.rule_topo(sub_c02)
+    c02.rule_order(sub_c02)
     rule_const(ctx)
     rule_opc(ctx)
     rule_sel(ctx)
